@@ -80,8 +80,8 @@ func VerifC02Auth() {
 	// root's name / issued by a foreign CA; it holds the matching private key or not
 	leafKey := vf.Int("leaf-key", 2, 3)
 	reqKey := vf.Int("request-key", 2, 3) // the certificate key the request will name
-	issuer := vf.Int("leaf-issuer", 0, 2)
-	signer := vf.IfInt(issuer == 0, 0, vf.IfInt(issuer == 1, leafKey, 5))
+	issuer := vf.Int("leaf-issuer", 0, 3) // 0: current root, 1: self-issued under the root's name, 2: a foreign CA, 3: the next root
+	signer := vf.IfInt(issuer == 0, 0, vf.IfInt(issuer == 1, leafKey, vf.IfInt(issuer == 2, 5, 1)))
 	// the server verifies the leaf against its own pool only; certificates are public, so any peer can append the
 	// genuine certificate of the key it names in its request behind its own leaf
 	chain := [][]byte{vfNodeLeaf(curTmpl, leafKey, signer, x509.ExtKeyUsageClientAuth), vfNodeLeaf(curTmpl, reqKey, 0, x509.ExtKeyUsageClientAuth)}
@@ -122,7 +122,8 @@ func VerifC02Auth() {
 	scopeA := vf.Or(vf.And(vf.Not(byNodeId), reqKey == 2), vf.And(byNodeId, hintNo == 1))
 	scopeB := vf.Or(vf.And(vf.Not(byNodeId), reqKey == 3), vf.And(byNodeId, hintNo == 2))
 	vouched := vf.Or(vf.And(vf.And(presentA, scopeA), sigKey == 2), vf.And(vf.And(presentB, scopeB), sigKey == 3))
-	rootOK := vf.And(issuer == 0, vf.Not(curExpired))
+	// the leaf carries the current root's window in every variant, so it is expired exactly when that root is
+	rootOK := vf.And(vf.Or(issuer == 0, issuer == 3), vf.Not(curExpired))
 	legit := vf.And(vf.And(holds, rootOK), vf.And(leafKey == reqKey, vouched))
 	authenticated := false
 	if err == nil {
